@@ -206,6 +206,21 @@ def programs(ctx):
             calls=[['run', 1, 1], ['run', 2, 1]])
         add('TimeDependentExpMPOEvolution', order='1', approx='II', L=6, mode='float', chi_max=2, pre=2,
             calls=[['run', 2, 1], ['run', 1, 1]])
+    # backward real-time steps (dt < 0): "the advertised evolved time equals the number of steps times the step" for either sign
+    # (added after the hand-made mutant `evolved_time + N_steps * abs(dt)` in TimeEvolutionAlgorithm.evolve was missed);
+    # appended after everything else so that the seeded choices above are unchanged
+    add('TEBDEngine', order='2', L=4, bc='finite', model='xxz', chi_max=3, pre=2, calls=[['run', 2, -1]])
+    add('TEBDEngine', order='4', L=5, bc='finite', model='tfi', chi_max=2, pre=0, calls=[['run', 1, 1], ['runevo', 2, -1]])
+    add('QRBasedTEBDEngine', order='2', L=4, bc='finite', model='xxz', chi_max=2, pre=2, calls=[['runevo', 1, -1], ['run', 1, 1]])
+    add('TwoSiteTDVPEngine', L=4, model='xxz', chi_max=2, pre=2, calls=[['run', 1, -1], ['run', 2, 1]])
+    add('SingleSiteTDVPEngine', L=4, model='xxz', chi_max=4, pre=2, calls=[['run', 2, 1], ['runevo', 1, -2]])
+    add('ExpMPOEvolution', order='2', approx='II', L=4, bc='finite', model='xxz', compression='SVD', chi_max=4, pre=1,
+        calls=[['run', 1, 1], ['runevo', 2, -1]])
+    add('ExpMPOEvolution', order='1', approx='I', L=5, bc='finite', model='tfi', compression='zip_up', chi_max=2, pre=0,
+        calls=[['run', 2, -1]])
+    add('TimeDependentExpMPOEvolution', order='2', approx='II', L=4, bc='finite', compression='SVD', chi_max=4, pre=1, t0=1,
+        calls=[['run', 1, -1], ['run', 1, 1]])
+    add('TimeDependentTEBD', order='2', L=4, bc='finite', t0=3, chi_max=2, calls=[['run', 2, -1]])
     for j, p in enumerate(progs):
         p['tid'] = j
     return progs
